@@ -152,6 +152,19 @@ CHECKS = {
         "documented 1e-8 pole-snapping cap (but not exactly at the pole) give no verdict.",
         "DESIGN.md section 6, C14",
     ),
+    "C15": (
+        "property-based testing (Hypothesis): stateless geometric oracle applied after every step of generated conversion histories + re-inspection of earlier results",
+        "Exploration: histories of 1-6 conversions (Grid.to_geodataframe / to_polycollection / to_linecollection, UxDataArray.to_geodataframe / "
+        "to_polycollection) with drawn periodic_elements, engine, projection (None, Robinson, Mollweide with a drawn central longitude), cache and "
+        "override, on generated meshes (merged hull meshes and lat-lon bands with faces across the antimeridian). After every call the returned "
+        "object is judged against the mesh alone: rows <-> faces, vertices = corners or their cartopy images in cyclic order, antimeridian set, "
+        "'exclude' drops exactly those faces, 'split' pieces stay in [-180, 180], do not span the antimeridian and cover the face (sampled both "
+        "ways, tolerance = geodesic-vs-straight cut displacement), data values sit on the polygons of their own faces (matched geometrically); "
+        "every object returned earlier is re-inspected after every later call.",
+        "Trusted: cartopy transform_points and shapely for the expected images / containment; meshes are made planar-safe by construction (edges <= "
+        "35 degrees, |lat| <= 70, no pole inside, counter-clockwise in the plane); PlateCarree projections are not generated (cartopy API drift).",
+        "DESIGN.md section 6, C15",
+    ),
     "C16": (
         "property-based testing (Hypothesis): independent geodesic oracle + per-edge reference differences/gradients",
         "Exploration: generated grids (mixed, partial with boundary edges, n_face above/below n_node, MPAS-like sources with "
